@@ -124,6 +124,12 @@ class Loop:
     as_lc: dict = field(default_factory=dict)   # accumulators recognised as list comprehensions
     carried: dict = field(default_factory=dict) # name -> (value before the loop, value at the end of one iteration)
 
+    @property
+    def virtual(self) -> bool:
+        """The loop of an expanded generator whose yields became a comprehension: whoever consumes the generator
+        iterates that comprehension (one fused loop), so this one is not a loop of the program as the rules see it."""
+        return YIELDED in self.as_lc
+
 
 @dataclass
 class Summary:
@@ -681,8 +687,10 @@ class _Run:
         into a loop, or the reverse, does not change what the rules see)."""
         if initv is None or tag(initv) != 'list' or initv[1]:
             return None
-        if any(isinstance(n, (ast.Break, ast.Continue, ast.Return, ast.Yield)) for b in s.body for n in ast.walk(b)):
-            return None
+        # (`continue` ends an iteration early: the states that leave through it are merged into the end of the body)
+        stoppers = (ast.Break, ast.Return) if nm == YIELDED else (ast.Break, ast.Return, ast.Yield)
+        if any(isinstance(n, stoppers) for b in s.body for n in ast.walk(b)):
+            return None             # (in a generator being expanded, the yields are the appends)
         if s.orelse:
             return None
         lid = loop.id
@@ -744,7 +752,7 @@ class _Run:
                 own = [x for x in own if x[1] == d]
                 enum = tag(gen_it) == 'call' and gen_it[1] == ('g', 'builtins.enumerate') and gen_it[2] and not gen_it[3]
                 if enum:
-                    if any(x[2] not in ('0.idx', '0.elem') for x in own) or conds:
+                    if any(x[2] not in ('0.idx', '0.elem') for x in own):
                         return None
                     inner = as_map(gen_it[2][0])
                 else:
@@ -764,7 +772,11 @@ class _Run:
                         return _subst_cv(t[2], {('cv', d, '0.idx'): i, ('cv', d, '0.elem'): g(e, i)}, d)
                     return _subst_cv(t[2], {('cv', d, '0'): g(e, i)}, d)
 
-                def fc(e, i, conds=conds, d=d, g=g, gconds=gconds):
+                def fc(e, i, conds=conds, d=d, g=g, gconds=gconds, enum=enum):
+                    if enum:
+                        # conditions on (position, element) of the enumerated base: positions are those of the base
+                        return list(gconds(e, i)) + [_subst_cv(c, {('cv', d, '0.idx'): i, ('cv', d, '0.elem'): g(e, i)}, d)
+                                                     if d is not None else c for c in conds]
                     return list(gconds(e, i)) + [_subst_cv(c, {('cv', d, '0'): g(e, i)}, d) if d is not None else c for c in conds]
                 return base, f, fc
             return t, (lambda e, i: e), (lambda e, i: [])
@@ -1007,6 +1019,9 @@ class _Run:
             return ('attr', base, name)
         if tag(base) == 'phi' and all(tag(v) == 'record' for _, v in base[1]):
             return T.mk_phi([(g, self.attr(v, name, node, st)) for g, v in base[1]])
+        if tag(base) == 'g' and name == '_fields' and base[1] in self.p.classes and \
+                _record_fields(self.p, self.p.classes[base[1]]) is not None:
+            return ('tuple', tuple(C(nm) for nm, _ in _record_fields(self.p, self.p.classes[base[1]])))
         if tag(base) == 'g':
             if self._is_data_global(base[1]):
                 return T.mk_attr(base, name)      # attribute / method of a module-level data object
@@ -1156,7 +1171,55 @@ class _Run:
         self.ex.lambda_defs[t] = (e, dict(st.env), self, first, self.ex._seq)
         return t
 
+    def _scan_pairs(self, e, st, kind, elts):
+        """[g(a, b) for a, b in zip(S, S[1:])] with S = list(accumulate(xs, f, initial=s0)) - one value per element of
+        xs computed from the state before and after it - is the loop
+            s = s0; out = []
+            for x in xs: t = f(s, x); out.append(g(s, t)); s = t
+        and is executed as that loop (so that the running-state formulation of a fold is the fold)."""
+        if kind != 'list' or len(e.generators) != 1 or e.generators[0].ifs or len(elts) != 1:
+            return None
+        g = e.generators[0]
+        if not (isinstance(g.target, (ast.Tuple, ast.List)) and len(g.target.elts) == 2 and
+                all(isinstance(x, ast.Name) for x in g.target.elts)):
+            return None
+        it = self.ev(g.iter, st)
+        scan = None
+        if tag(it) == 'call' and it[1] == ('g', 'builtins.zip') and len(it[2]) == 2 and not it[3]:
+            a, b = it[2]
+            if tag(a) == 'scan' and b == T.mk_sub(a, ('slice', C(1), NONE, NONE)):
+                scan = a
+        if tag(it) == 'call' and it[1] == ('g', 'itertools.pairwise') and len(it[2]) == 1 and tag(it[2][0]) == 'scan':
+            scan = it[2][0]
+        if scan is None:
+            return None
+        lo, hi = g.target.elts[0].id, g.target.elts[1].id
+        src = ('__scan_s = __scan_s0\n__scan_out = []\nfor __scan_x in __scan_xs:\n'
+               f'    __scan_t = __scan_f(__scan_s, __scan_x)\n    {lo} = __scan_s\n    {hi} = __scan_t\n'
+               '    __scan_out.append(0)\n    __scan_s = __scan_t\n')
+        mod = ast.parse(src)
+        loop = mod.body[2]
+        loop.body[3].value.args[0] = elts[0]            # the element expression itself (evaluated on lo / hi)
+        for n in ast.walk(mod):
+            for ch in ast.iter_child_nodes(n):
+                if not hasattr(ch, '_parent') or ch is elts[0] or n is not mod:
+                    if ch is not elts[0]:
+                        ch._parent = n
+            ast.copy_location(n, e) if hasattr(n, 'lineno') or isinstance(n, (ast.stmt, ast.expr)) else None
+        for top in mod.body:
+            top._parent = getattr(_stmt_of(e), '_parent', None)
+        inner = st
+        inner.env['__scan_s0'], inner.env['__scan_xs'], inner.env['__scan_f'] = scan[3], scan[1], scan[2]
+        out = self.block(mod.body, inner)
+        res = out.env.get('__scan_out')
+        for k in ('__scan_s0', '__scan_xs', '__scan_f', '__scan_s', '__scan_t', '__scan_x', '__scan_out', lo, hi):
+            out.env.pop(k, None)
+        return res
+
     def _comp(self, e, st, kind, elts):
+        sp = self._scan_pairs(e, st, kind, elts)
+        if sp is not None:
+            return sp
         if kind in ('list', 'gen') and len(e.generators) == 1 and not e.generators[0].ifs and len(elts) == 1:
             items = _constant_items(self.ev(e.generators[0].iter, st))
             if items is not None and 1 <= len(items) <= 8:
@@ -1174,6 +1237,20 @@ class _Run:
         try:
             for gi, g in enumerate(e.generators):
                 it = self.ev(g.iter, inner)
+                if len(e.generators) == 1 and isinstance(g.target, ast.Name) and tag(it) == 'lc' and \
+                        it[1] in ('list', 'gen') and len(it[3]) == 1 and _own_depth(it) is not None:
+                    # a comprehension over a comprehension kept in a local ([g(m) for m in masks] with
+                    # masks = [f(c) for c in cs]) visits the elements of the inner iterable: [g(f(c)) for c in cs]
+                    d_in = _own_depth(it)
+                    base, conds_in = it[3][0]
+                    own = {x for x in _cvs_outside_lc(it[2]) + [y for c in conds_in for y in _cvs_outside_lc(c)]
+                           if x[1] == d_in}
+                    mapping = {x: ('cv', d, x[2]) for x in own}
+                    inner.env[g.target.id] = _subst_cv(it[2], mapping, d_in)
+                    conds = tuple(_subst_cv(c, mapping, d_in) for c in conds_in) + \
+                        tuple(self.ev(c, inner) for c in g.ifs)
+                    gens.append((base, conds))
+                    continue
                 self._bind_comp_target(g.target, it, d, gi, inner)
                 conds = tuple(self.ev(c, inner) for c in g.ifs)
                 gens.append((it, conds))
@@ -1259,6 +1336,19 @@ class _Run:
             merged.update(dict(kws))
             return self.call(fn[2][0], tuple(fn[2][1:]) + tuple(args),
                              tuple(sorted(merged.items(), key=lambda kv: (kv[0] is None, kv[0] or '', T.key(kv[1])))), node, st)
+        if tg == 'g' and fn[1] == 'itertools.accumulate' and 1 <= len(args) <= 2 and dict(kws).get('initial') is not None \
+                and set(dict(kws)) <= {'initial', 'func'} and (len(args) == 2 or 'func' in dict(kws)):
+            # accumulate(xs, f, initial=s0): the sequence of states s0, f(s0, x0), f(f(s0, x0), x1), ...
+            return ('scan', args[0], args[1] if len(args) == 2 else dict(kws)['func'], dict(kws)['initial'])
+        if tg == 'g' and fn[1] in ('builtins.list', 'builtins.tuple') and len(args) == 1 and not kws and tag(args[0]) == 'scan':
+            return args[0]
+        # methods of a NamedTuple record
+        if tg == 'attr' and tag(fn[1]) == 'record' and fn[2] == '_asdict' and not args and not kws:
+            return ('dict', tuple((C(nm), v) for nm, v in fn[1][2]))
+        if tg == 'attr' and tag(fn[1]) == 'record' and fn[2] == '_replace' and not args and all(k for k, _ in kws):
+            new = dict(kws)
+            if set(new) <= {nm for nm, _ in fn[1][2]}:
+                return ('record', fn[1][1], tuple((nm, new.get(nm, v)) for nm, v in fn[1][2]))
         # a lambda bound to a local and applied: evaluate its body on the arguments
         if tg == 'lam' and fn in self.ex.lambda_defs and not kws and len(args) == fn[1] \
                 and not any(tag(a) == 'star' for a in args):
@@ -1277,6 +1367,9 @@ class _Run:
                      'builtins.min', 'builtins.sorted', 'builtins.set', 'builtins.frozenset', 'numpy.nansum'):
                 # a generator consumed whole is the list of its elements
                 args = (('lc', 'list') + tuple(args[0][2:]),) + tuple(args[1:])
+        if tg == 'g' and fn[1] in ('builtins.list', 'builtins.tuple') and len(args) == 1 and not kws and \
+                tag(args[0]) in ('list', 'tuple'):
+            return ('list' if fn[1].endswith('list') else 'tuple', args[0][1])      # list(('a', 'b')) is ['a', 'b']
         if tg == 'g' and fn[1] in ('builtins.list',) and len(args) == 1 and not kws and tag(args[0]) == 'lc' \
                 and args[0][1] == 'list':
             return args[0]
@@ -1414,6 +1507,18 @@ class _Run:
         return ('lam', len(a.args), summ.ret)
 
     def _mcall(self, recv, name, args, kws):
+        if T.is_const(recv) and isinstance(recv[1], str) and all(T.is_const(a) for a in args) and \
+                all(k is not None and T.is_const(v) for k, v in kws) and name in _STR_FOLD:
+            # a method of a string literal on literal arguments (a file-name template filled in, ...)
+            try:
+                out = getattr(recv[1], name)(*[a[1] for a in args], **{k: v[1] for k, v in kws})
+                if isinstance(out, (str, bool, int)):
+                    return C(out)
+            except Exception:  # pylint: disable=broad-except
+                pass
+        if T.is_const(recv) and isinstance(recv[1], str) and name == 'join' and len(args) == 1 and not kws and \
+                tag(args[0]) in ('tuple', 'list') and all(T.is_const(a) and isinstance(a[1], str) for a in args[0][1]):
+            return C(recv[1].join(a[1] for a in args[0][1]))
         if name in ('apply', 'map', 'transform', 'applymap') and args and tag(args[0]) == 'g':
             args = (self._function_as_lambda(args[0]),) + tuple(args[1:])
         if name in METHOD_SIGS:
@@ -1539,6 +1644,8 @@ class _Run:
 _BINOP = {ast.Add: '+', ast.Sub: '-', ast.Mult: '*', ast.Div: '/', ast.FloorDiv: '//',
           ast.Mod: '%', ast.Pow: '**', ast.BitAnd: '&', ast.BitOr: '|', ast.BitXor: '^',
           ast.LShift: '<<', ast.RShift: '>>', ast.MatMult: '@'}
+_STR_FOLD = {'format', 'lower', 'upper', 'strip', 'lstrip', 'rstrip', 'replace', 'startswith', 'endswith', 'title',
+             'capitalize', 'zfill', 'removeprefix', 'removesuffix'}
 _OPERATOR_CMP = {}
 for _m in ('operator', '_operator'):
     _OPERATOR_CMP.update({f'{_m}.lt': '<', f'{_m}.le': '<=', f'{_m}.gt': '>', f'{_m}.ge': '>=', f'{_m}.eq': '==',
